@@ -136,11 +136,15 @@
                           (let* ((sc2 (string-cursor-forward str sc1 2))
                                  (slash (string-find str (lambda (c) (memv c '(#\/ #\? #\#))) sc2))
                                  (at (string-find-right str #\@ sc2 slash))
+                                 (host-start (if (string-cursor>? at sc2) at sc2))
                                  (colon3
                                   (string-find
-                                   str #\: (if (string-cursor>? at sc2)
-                                               at
-                                               sc2)
+                                   str #\:
+                                   ;; an IP-literal host [...] may contain colons
+                                   (if (and (string-cursor<? host-start slash)
+                                            (eqv? #\[ (string-cursor-ref str host-start)))
+                                       (string-find str #\] host-start slash)
+                                       host-start)
                                    slash))
                                  (quest (string-find str #\? slash))
                                  (pound
